@@ -167,6 +167,9 @@ impl Property for C07 {
             })
             .boxed()
     }
+    fn concurrent() -> bool {
+        true
+    }
     fn check(spec: &Spec, env: &mut Env) -> Outcome {
         let mut o = Outcome::new();
         let mut w = spec.world.clone();
